@@ -29,7 +29,7 @@ import (
 	"verif/sims/fullnode"
 )
 
-var syncTampers = []string{"honest", "honest", "honest", "tx", "apphash", "commit-underweight", "commit-other-block", "commit-badsig", "other-height", "silent", "forged", "nil-block", "garbage"}
+var syncTampers = []string{"honest", "honest", "honest", "tx", "apphash", "commit-underweight", "commit-other-block", "commit-badsig", "other-height", "silent", "forged", "nil-block", "garbage", "nil-header", "nil-data", "nil-lastcommit", "huge-height", "commit-all-missing"}
 
 // scriptedReactor speaks the block-sync protocol for a puppet peer.
 type scriptedReactor struct {
@@ -162,6 +162,20 @@ func (w *world) serveBlock(h int64, how string, peer int) *types.Block {
 			return src
 		}
 		return w.chain[o-1]
+	case "nil-header":
+		b.Header = nil
+	case "nil-data":
+		b.Data = nil
+	case "nil-lastcommit":
+		b.LastCommit = nil
+	case "huge-height":
+		b.Header.Height = 1 << 60
+	case "commit-all-missing":
+		if b.LastCommit != nil {
+			for i := range b.LastCommit.Precommits {
+				b.LastCommit.Precommits[i] = nil
+			}
+		}
 	case "forged":
 		// a different block at this height, "committed" by the first validator alone in the next answer
 		b.Data.Txs = []types.Tx{types.Tx(fmt.Sprintf("forged-%d-%d", h, peer))}
